@@ -3,7 +3,9 @@
 (* Obs_ProxyMeta.tla with the reply decoded (franz-go kmsg) from the bytes the real proxy produced.   *)
 EXTENDS Integers, Sequences, FiniteSets
 CONSTANTS proxy,   \* [node, host, port]: the proxy's advertised identity
-          inp,     \* the input: [kind, snap, mode, names, ids]
+          inp,     \* the input: [kind, snap, mode, names, ids, prev]
+                   \*   (prev: what the proxy's caches were last refreshed from; the property never looks at it:
+                   \*    "the cluster metadata" is the CURRENT one, snap)
                    \*   kind: "metadata" | "coordinator" | "nr_metadata" | "nr_coordinator"   (nr = proxy not ready)
                    \*   snap: the cluster metadata, sequence of [name, id, terr, parts: seq of [p, perr, epoch, leader]]
                    \*   mode: "all" | "names" | "ids" with the requested names / topic ids
